@@ -58,7 +58,7 @@ def guarded(ctx, fnname, icls, coords, call):
 def case_sus(ctx, c):
     from pybrops.core.random.sampling import stochastic_universal_sampling as sus
     g = ctx.rng("sus", c)
-    mode = int(g.integers(0, 4))
+    mode = int(g.integers(0, 5))
     if mode == 0:
         p = numpy.array(POOLS[int(g.integers(len(POOLS)))], dtype=float); wcls = "pool"
     elif mode == 1:
@@ -66,8 +66,10 @@ def case_sus(ctx, c):
         p = g.choice([0, 1, 2, 3, 0.1, 0.3, 0.7, 1e-9, 1e6, float(g.uniform())], n).astype(float); wcls = "mixed"
     elif mode == 2:
         n = int(g.integers(1, 40)); p = g.uniform(0, 1, n) * (g.uniform(0, 1, n) < 0.8); wcls = "uniform+zeros"
-    else:
+    elif mode == 3:
         n = int(g.integers(2, 30)); p = 10.0 ** g.uniform(-12, 12, n); wcls = "magnitudes"
+    else:
+        n = int(g.integers(1, 16)); p = (g.integers(0, 7, n) * (g.random(n) < 0.7)).astype(float); wcls = "integers+zeros"
     if not p.sum() > 0:
         p[int(g.integers(len(p)))] = 1.0
     g.shuffle(p)
@@ -87,6 +89,11 @@ def case_sus(ctx, c):
         k = int(p.sum()) * int(g.choice([1, 2, 4])); size = k
         a = numpy.arange(len(p))
     icls = rname if rname.startswith("crafted") else "seeded-rng"
+    # weight vectors handed over in other numeric dtypes (integer-valued weights only, so that the cast is exact)
+    if wcls in ("pool", "small-integers", "mixed", "integers+zeros") and numpy.all(p == numpy.floor(p)) and p.max() < 200 and g.random() < 0.5:
+        dt = str(g.choice(["uint8", "uint16", "uint32", "uint64", "int8", "int16", "int32", "int64", "float32"]))
+        p = p.astype(dt); wcls += "/" + ("unsigned" if dt.startswith("u") else "signed" if dt.startswith("i") else dt)
+        icls += "/" + ("unsigned integer weights" if dt.startswith("u") else "signed integer weights" if dt.startswith("i") else "float32 weights")
     coords = [c, "sus"]
     ctx.case("sus:%s/%s" % (wcls, icls), p, size, rname, trivial=len(p) < 2)
     ctx.sample({"fn": "sus", "p": p.tolist(), "size": size, "rng": rname}) if c % 97 == 0 else None
@@ -148,7 +155,7 @@ def case_outcross(ctx, c):
     from pybrops.core.random.sampling import outcross_shuffle
     g = ctx.rng("outcross", c)
     ncross = int(g.integers(1, 13)); npar = int(g.integers(1, 5))
-    mode = int(g.integers(0, 4))
+    mode = int(g.integers(0, 6)); mode = min(mode, 4)
     if mode == 0:      # tiled set (what the configurations produce)
         pool = g.permutation(30)[: int(g.integers(1, 9))]
         x = numpy.resize(pool, ncross * npar)
@@ -156,13 +163,15 @@ def case_outcross(ctx, c):
         x = g.integers(0, max(1, npar), ncross * npar)
     elif mode == 2:    # one dominant individual
         x = g.integers(0, 8, ncross * npar); x[g.random(x.size) < 0.6] = 0
-    else:
+    elif mode == 3:
         x = g.integers(0, 20, ncross * npar)
+    else:              # few individuals, many crosses: repeats cannot all be removed, plateaus of equal-score exchanges
+        x = g.integers(0, int(g.integers(2, 5)), ncross * npar)
     x = numpy.sort(x) if g.random() < 0.5 else x
     x = x.reshape(ncross, npar).astype("int64")
     rname, rng = mkrng(g, c)
     d0 = O.dupcount(x)
-    icls = ["tiled", "heavy-repeats", "dominant", "sparse"][mode] + ("/selfs-present" if d0 else "/no-selfs")
+    icls = ["tiled", "heavy-repeats", "dominant", "sparse", "few-individuals"][mode] + ("/selfs-present" if d0 else "/no-selfs")
     coords = [c, "outcross"]
     ctx.case("outcross:" + icls, x, rname, trivial=d0 == 0)
     ctx.sample({"fn": "outcross_shuffle", "xconfig": x.tolist(), "rng": rname}) if c % 97 == 0 else None
@@ -174,7 +183,7 @@ def case_outcross(ctx, c):
 
 
 FAMILIES = {"sus": (case_sus, 12000, 400000), "tiled": (case_tiled, 4000, 100000),
-            "axis": (case_axis, 3000, 60000), "outcross": (case_outcross, 1500, 30000)}
+            "axis": (case_axis, 3000, 60000), "outcross": (case_outcross, 4000, 100000)}
 
 
 def run_shard(ctx):
